@@ -12,6 +12,7 @@ import (
 	"io"
 	"net"
 	"sync"
+	"sync/atomic"
 	"time"
 
 	"mellium.im/xmlstream"
@@ -108,7 +109,7 @@ type Conn struct {
 	s              *xmpp.Session
 	writeBuf       *bufio.Writer
 	seq            uint16
-	closed         bool
+	closed         atomic.Bool
 	stanzaWriter   *stanzaWriter
 	maxBufSize     int
 }
@@ -196,11 +197,11 @@ func (c *Conn) Read(b []byte) (n int, err error) {
 // Write can be made to time out and return an Error with Timeout() == true
 // after a fixed time limit; see SetDeadline and SetWriteDeadline.
 func (c *Conn) Write(b []byte) (n int, err error) {
-	if c.closed {
-		return 0, io.EOF
-	}
 	c.writeLock.Lock()
 	defer c.writeLock.Unlock()
+	if c.closed.Load() {
+		return 0, io.EOF
+	}
 
 	return c.writeBuf.Write(b)
 }
@@ -235,7 +236,7 @@ func (c *Conn) flush(t xmlstream.Encoder) error {
 		return c.writeBuf.Flush()
 	}
 
-	c.stanzaWriter.t = t
+	// Only reached from closeNoNotify, which holds writeLock.
 	return c.writeBuf.Flush()
 }
 
@@ -243,10 +244,9 @@ func (c *Conn) flush(t xmlstream.Encoder) error {
 // Any blocked Read or Write operations will be unblocked and return errors.
 // If the write buffer contains data it will be flushed.
 func (c *Conn) Close() error {
-	if c.closed {
+	if c.closed.Swap(true) {
 		return nil
 	}
-	c.closed = true
 
 	// Flush any remaining data to be written.
 	err := c.Flush()
@@ -281,14 +281,26 @@ func (c *Conn) Close() error {
 }
 
 func (c *Conn) closeNoNotify(t xmlstream.Encoder) error {
-	if c.closed {
+	if c.closed.Swap(true) {
 		return nil
 	}
-	c.closed = true
 
 	c.handler.rmStream(c.stanzaWriter.sid)
 
-	// Flush any remaining data to be written.
+	// A Write or Flush that is in progress holds writeLock while it waits for
+	// an acknowledgement that only the caller of this function (the serve loop)
+	// can deliver, so it must not be waited for; it will find the stream closed
+	// on its next call.  What it had buffered is not sent: the peer has closed.
+	if !c.writeLock.TryLock() {
+		close(c.readReady)
+		return nil
+	}
+	defer c.writeLock.Unlock()
+
+	// Flush any remaining data to be written through the handler's encoder,
+	// and only while the lock is held so that no other goroutine uses it.
+	c.stanzaWriter.t = t
+	defer func() { c.stanzaWriter.t = nil }()
 	err := c.flush(t)
 	if err != nil {
 		return err
